@@ -13,6 +13,9 @@ Import ListNotations.
 Definition limit_chain_iptables : nat := 28.    (* XT_EXTENSION_MAXNAMELEN - 1 = iptables.MaxChainNameLength *)
 Definition limit_chain_nft      : nat := 256.   (* NFT_NAME_MAXLEN = knftables.NameLengthMax *)
 Definition limit_ipset          : nat := 31.    (* IPSET_MAXNAMELEN - 1 *)
+Definition limit_nflog          : nat := 63.    (* NFLOG prefix: 64 bytes including the terminator *)
+Definition limit_ifname         : nat := 15.    (* IFNAMSIZ - 1 *)
+Definition limit_handle         : nat := 128.   (* vmipam: "max length 128" for IPAM handle IDs *)
 
 Definition limit (i : ident) : option nat :=
   match i with
@@ -22,6 +25,10 @@ Definition limit (i : ident) : option nat :=
   | IdGroup _ _ _ => Some limit_chain_iptables        (* group chains use the iptables size in both modes *)
   | IdMainSet _ _ | IdTempSet _ _ => Some limit_ipset
   | IdPolText _ | IdUnique _ _ => None                (* intermediate texts, not kernel names *)
+  | IdNftSet _ _ => Some limit_chain_nft              (* nftables set names share NFT_NAME_MAXLEN *)
+  | IdNflog _ | IdNflogRule _ _ _ _ _ => Some limit_nflog
+  | IdVeth _ _ => Some limit_ifname
+  | IdVMHandle _ _ _ => Some limit_handle
   end.
 
 (* ---------- boolean equalities ---------- *)
@@ -50,6 +57,12 @@ Definition ident_eqb (a b : ident) : bool :=
   | IdTempSet v n, IdTempSet v' n' => Bool.eqb v v' && N.eqb n n'
   | IdPolText x, IdPolText x' => pid_eqb x x'
   | IdUnique t c, IdUnique t' c' => beq t t' && beq c c'
+  | IdNftSet v s, IdNftSet v' s' => Bool.eqb v v' && src_eqb s s'
+  | IdNflog t, IdNflog t' => beq t t'
+  | IdNflogRule a o d i x, IdNflogRule a' o' d' i' x' =>
+      N.eqb a a' && N.eqb o o' && N.eqb d d' && N.eqb i i' && pid_eqb x x'
+  | IdVeth n p, IdVeth n' p' => beq n n' && beq p p'
+  | IdVMHandle n s v, IdVMHandle n' s' v' => beq n n' && beq s s' && beq v v'
   | _, _ => false
   end.
 
@@ -58,7 +71,11 @@ Inductive space :=
 | SpRaw (p : bytes) (max : nat)   (* direct calls: only comparable for the same prefix and limit *)
 | SpChain (nft : bool)            (* chains of one dataplane (iptables xor nftables) *)
 | SpSet                           (* kernel IP sets (v4 and v6 sets share one namespace) *)
-| SpText | SpUnique.
+| SpText | SpUnique
+| SpNftSet                        (* sets of the nftables table *)
+| SpNflog | SpNflogRule           (* NFLOG prefixes: raw texts / rule prefixes *)
+| SpVeth                          (* host-side veth names *)
+| SpHandle.                       (* IPAM handle IDs of VMs *)
 
 Definition space_of (i : ident) : space :=
   match i with
@@ -68,6 +85,11 @@ Definition space_of (i : ident) : space :=
   | IdMainSet _ _ | IdTempSet _ _ => SpSet
   | IdPolText _ => SpText
   | IdUnique _ _ => SpUnique
+  | IdNftSet _ _ => SpNftSet
+  | IdNflog _ => SpNflog
+  | IdNflogRule _ _ _ _ _ => SpNflogRule
+  | IdVeth _ _ => SpVeth
+  | IdVMHandle _ _ _ => SpHandle
   end.
 
 (* group chains are programmed into whichever dataplane is active: they share a namespace with
@@ -83,6 +105,11 @@ Definition same_space (a b : ident) : bool :=
   | SpSet, SpSet => true
   | SpText, SpText => true
   | SpUnique, SpUnique => true
+  | SpNftSet, SpNftSet => true
+  | SpNflog, SpNflog => true
+  | SpNflogRule, SpNflogRule => true
+  | SpVeth, SpVeth => true
+  | SpHandle, SpHandle => true
   | _, _ => false
   end.
 
@@ -96,6 +123,8 @@ Definition clean (s : bytes) : bool := negb (has slash s) && (negb (has nl s) &&
 Definition valid_pid (x : policy_id) : bool :=
   known_kind (p_kind x) && clean (p_name x) && clean (p_ns x).
 Definition nonempty (s : bytes) : bool := match s with [] => false | _ => true end.
+(* 'A'..'Z' : the action / owner / direction characters of an NFLOG prefix *)
+Definition letter (c : N) : bool := N.leb 65 c && N.leb c 90.
 
 Definition in_domain (i : ident) : bool :=
   match i with
@@ -111,6 +140,15 @@ Definition in_domain (i : ident) : bool :=
   | IdTempSet _ n => N.ltb n 18446744073709551616      (* uint on 64-bit *)
   | IdPolText x => valid_pid x
   | IdUnique t _ => negb (has colon t)
+  (* nftables turns ':' into '-': fixed IDs must not contain ':' ("a:b" and "a-b" would clash), tags no '-' *)
+  | IdNftSet _ (SetStatic id) => (length id <=? 24) && negb (has colon id)
+  | IdNftSet _ (SetHashed t _) => negb (has colon t) && negb (has dash t) && (length t <=? 9)
+  | IdNflog _ => true
+  | IdNflogRule a o d i x => letter a && letter o && letter d && N.ltb i 9223372036854775808 && valid_pid x
+  | IdVeth ns _ => negb (has dot ns)                  (* namespaces are DNS labels *)
+  (* the CNI network name must be non-empty (empty means the default network), dot-free and short;
+     namespaces are DNS labels *)
+  | IdVMHandle net ns _ => nonempty net && negb (has dot net) && (length net <=? 60) && negb (has dot ns)
   end.
 
 (* ---------- one observation = identity + what the implementation returned (twice) ---------- *)
@@ -156,7 +194,7 @@ Definition ok_case_obs (l : list obs) : bool :=
 (* ---------- correspondence case, as written by the Go driver ---------- *)
 (* c_clamp: which variant of the shortening rule the tree under test has (probed by the driver);
    c_tbl: (hash kind, input, base64 text of the digest) computed by the real hash functions;
-   kind 0 = sha256, 1 = sha224, 2 = sha3-224 *)
+   kind 0 = sha256, 1 = sha224, 2 = sha3-224 (base64url text), 3 = sha1 (hex text) *)
 Record case := { c_clamp : bool; c_tbl : list (N * bytes * bytes); c_obs : list obs }.
 
 Fixpoint lookup (tbl : list (N * bytes * bytes)) (k : N) (x : bytes) : bytes :=
@@ -166,7 +204,7 @@ Fixpoint lookup (tbl : list (N * bytes * bytes)) (k : N) (x : bytes) : bytes :=
   end.
 
 Definition model_case (c : case) : bool :=
-  forallb (fun o => oname_eqb (model_name (c_clamp c) (lookup (c_tbl c) 0) (lookup (c_tbl c) 1) (lookup (c_tbl c) 2) (o_id o))
+  forallb (fun o => oname_eqb (model_name (c_clamp c) (lookup (c_tbl c) 0) (lookup (c_tbl c) 1) (lookup (c_tbl c) 2) (lookup (c_tbl c) 3) (o_id o))
                               (o_name o)) (c_obs c).
 
 Definition check_case (c : case) : bool * bool := (model_case c, ok_case_obs (c_obs c)).
